@@ -373,7 +373,10 @@ func c18Run(w c18Work, rendezvous func()) (h uint64, err error) {
 			first := []func(){
 				func() { d.add(color15.Color(w.Seed).Luminosity()) },
 				func() { d.add(uint16(color15.Color(w.Seed).MulDiv(byte(w.Seed>>8)|1, byte(w.Seed>>16)|1))) },
-				func() { r, g, b := color15.Color(w.Seed >> 3).ToRGB(); d.add(r, g, b, uint16(color15.ToColor15(r, g, b))) },
+				func() {
+					r, g, b := color15.Color(w.Seed >> 3).ToRGB()
+					d.add(r, g, b, uint16(color15.ToColor15(r, g, b)))
+				},
 			}
 			for _, m := range mappers {
 				m := m
